@@ -33,7 +33,7 @@ class StepResult:
 
 
 def _live_slots(w: World):
-    return [i for i, s in enumerate(w.slots) if s is not None]
+    return [i for i, s in enumerate(w.slots) if s is not None and s.real is not None]
 
 
 def _snap_all(w: World):
@@ -91,6 +91,8 @@ def run_step(w: World, op: dict, *, probes=None, index_every=True) -> StepResult
             if not v.trigger:
                 v.trigger = plan.trigger
             viol.append(v)
+            for v2 in getattr(v, "also", ()) or ():
+                viol.append(v2)
             return False
 
     live = _live_slots(w)
@@ -187,6 +189,10 @@ def run_step(w: World, op: dict, *, probes=None, index_every=True) -> StepResult
                 if ok and plan.after is not None:
                     guard(plan.after, result)
 
+    # C02 owns the data_id rule (explicit id, else id callback, else hash)
+    for v in list(viol):
+        if v.check == "data_id" and v.prop != "C02":
+            viol.append(Violation("C02", "data_id-rule", v.detail, v.trigger))
     # caller-owned dicts handed to nutree must stay untouched (no aliasing)
     for name, (live, pristine) in w.shared_dicts.items():
         if live != pristine:
@@ -195,12 +201,31 @@ def run_step(w: World, op: dict, *, probes=None, index_every=True) -> StepResult
                                   f"later operation on a node", plan.trigger))
             w.shared_dicts[name] = (dict(pristine), pristine)
     # 3. removed nodes (C01) and index (C02)
-    if struct_ok and not viol:
-        for i in _live_slots(w):
+    had = bool(viol)
+    for i in _live_slots(w):
+        if struct_ok and not had:
             guard(check_removed, w, i)
-            if index_every:
-                pd, pdata = (probes(w, i) if probes else ((), ()))
-                guard(check_index, w, i, pd, pdata)
+        if index_every:
+            pd, pdata = (probes(w, i) if probes else ((), ()))
+
+            def _idx(i=i, pd=pd, pdata=pdata):
+                try:
+                    check_index(w, i, pd, pdata)
+                except Violation:
+                    raise
+                except Exception:  # noqa: BLE001 - an unreadable tree is C01's business
+                    if struct_ok and not had:
+                        raise
+
+            guard(_idx)
+    # C13: after an escaped callback fault the tree must still satisfy C01-C03
+    if w.fault.fired:
+        for v in list(viol):
+            if v.prop in ("C01", "C02", "C03"):
+                viol.append(Violation(
+                    "C13", "callback-fault-broke-" + v.prop,
+                    f"after callback {fault['cb']}#{fault['at']} raised in {op['k']}: {v.detail}",
+                    plan.trigger + f"/fault-{fault['cb']}"))
     return res
 
 
